@@ -1489,6 +1489,9 @@ impl<'a> Query<'a> {
     ) -> Result<(Vec<Self>, &'a str), StamError> {
         let mut subqueries = Vec::new();
         if querystring.trim_start().chars().nth(0) == Some('{') {
+            //(white space may still precede the brace, e.g. after the closing bracket of a union:
+            // it must go before a byte is sliced off)
+            querystring = querystring.trim_start();
             loop {
                 querystring = &querystring[1..].trim_start(); //strips the { or | and any spaces
                 let (attributes, remainder) = Self::parse_attributes(querystring)?;
